@@ -206,6 +206,18 @@ VALSETS = [[0, 1, 2, 3], [-3, -2, -1, 0, 0, 1, 2, 3], [0, 0, 0, 5, -5, 100, -7],
 def gen_case(rng, tier, ctx, i):
     r = rng.random()
     vals = rng.choice(VALSETS)
+    if rng.random() < 0.02:
+        # many priority levels with ties below them: the weights grow like 3**k and leave the range a double represents exactly while still fitting 64 bits
+        nlev = rng.randint(30, 38)
+        per = 2
+        vals_ = []
+        for lv in range(1, nlev + 1):
+            vals_ += [lv * rng.choice([1, 1, -1])] * per
+        rng.shuffle(vals_)
+        ctx.count("count:many-levels-with-ties")
+        if rng.random() < 0.5:
+            return {"data": vals_, "method": "shadow", "axis": None, "via": "method"}
+        return {"data": [vals_], "method": "shadow", "axis": 0, "via": "method"}
     if rng.random() < 0.012:
         # a batch of wide members (what a configurator with hundreds of variables hands over for several requests): a default row of -1/-2 and
         # a sparse signed request row per member; the members agree in their first and last columns and differ in the middle
